@@ -14,12 +14,12 @@ VARIABLES blf, blc, steps,
 vars == <<blf, blc, steps, mono, maxmt, ever>>
 
 Init == blf = BlNone /\ blc = BlCold /\ steps = 0 /\ mono = TRUE /\ maxmt = 0 /\ ever = {}
-Write == \E ids \in SUBSET Objs_, mt \in 1..MaxT :
+BlW == \E ids \in SUBSET Objs_, mt \in 1..MaxT :
            /\ blf' = BlWrite(blf, ids, mt) /\ mono' = (mono /\ mt > maxmt) /\ maxmt' = Max(maxmt, mt)
            /\ ever' = ever \cup ids /\ UNCHANGED blc
-Remove == blf.ex /\ blf' = BlRemove(blf) /\ UNCHANGED <<blc, mono, maxmt, ever>>
-Access == blc' = BlRefresh(blc, blf) /\ UNCHANGED <<blf, mono, maxmt, ever>>
-Next == steps < MaxSteps /\ steps' = steps + 1 /\ (Write \/ Remove \/ Access)
+BlR == blf.ex /\ blf' = BlRemove(blf) /\ UNCHANGED <<blc, mono, maxmt, ever>>
+BlA == blc' = BlRefresh(blc, blf) /\ UNCHANGED <<blf, mono, maxmt, ever>>
+Next == steps < MaxSteps /\ steps' = steps + 1 /\ (BlW \/ BlR \/ BlA)
 Spec == Init /\ [][Next]_vars
 
 Now == BlRefresh(blc, blf)
